@@ -144,6 +144,18 @@ impl<LeafData: IndexedData> Qbvh<LeafData> {
 
             self.nodes.extend_from_slice(&[old_root, new_leaf_node]);
             self.nodes[0].children = new_root_children;
+
+            // The AABBs stored in the root still describe the children of the old root,
+            // so the root must be refitted even if the new leaf ends up unchanged (e.g. if
+            // the proxy is removed again before the next refit).
+            if old_root.is_dirty() {
+                // Index 0 is already in `dirty_nodes` and remains the root. The moved copy
+                // of the old root carries the dirty flag, so it needs its own entry.
+                self.dirty_nodes.push(new_leaf_node_id - 1);
+            } else {
+                self.nodes[0].set_dirty(true);
+                self.dirty_nodes.push(0);
+            }
         } else {
             let node = &mut self.nodes[proxy.node.index as usize];
             if !node.is_dirty() {
